@@ -806,4 +806,4 @@ def _lifecycle(ctx):
                 "append on every normal path",
                 "; ".join(w for w in r["why"] if "finalize" in w) or
                 "finalize missing", node=g["events"][0][1])
-    ctx.floor("C13e-writer-groups", n_groups, 3)
+    ctx.floor("C13e-writer-groups", n_groups, 2)
